@@ -441,6 +441,14 @@ def g_generic(ctx, rng, i):
         _try(QC.intersect, LC)
         _try(Q.intersect, LC)
         _try(QC.intersect, LC[(0,) * len(shape)])
+        # the same lines / quadrics in representatives of very different scale per element (any tolerance must be relative to the element)
+        lam = np.array([gen.pick(rng, [1.0, 1000.0, 0.002, -300.0, 0.5]) for _ in range(k)]).reshape(shape)
+        LS = type(LC)(LC.array * lam.reshape(shape + (1,) * (LC.array.ndim - len(shape))), copy=True) if dim == 2 else None
+        if LS is not None:
+            _try(Q.intersect, LS)
+            _try(QC.intersect, LS)
+        mu = np.array([gen.pick(rng, [1.0, 200.0, 0.01, -50.0]) for _ in range(k)]).reshape(shape + (1, 1))
+        _try(g.QuadricCollection(As * mu).intersect, LC)
     except Exception:
         pass
     if dim == 3:
